@@ -106,4 +106,24 @@ theorem decodeOne_ret_wide (pc a b : Nat) (rest : Bytes) :
     decodeOne pc (0xc4 :: 0xa9 :: a :: b :: rest) = some (.ret (a * 256 + b), 4) := by
   simp [decodeOne, isSimple]
 
+theorem decodeOne_cp {op : Nat} (h : isCp op = true) (pc a b : Nat) (rest : Bytes) :
+    decodeOne pc (op :: a :: b :: rest) = some (.cp op (a * 256 + b), 3) := by
+  have hop : op = 0xb2 ∨ op = 0xb3 ∨ op = 0xb4 ∨ op = 0xb5 ∨ op = 0xb6 ∨ op = 0xb7 ∨ op = 0xb8 ∨ op = 0xbb ∨
+      op = 0xbd ∨ op = 0xc0 ∨ op = 0xc1 := by
+    simp [isCp] at h; omega
+  rcases hop with rfl | rfl | rfl | rfl | rfl | rfl | rfl | rfl | rfl | rfl | rfl <;>
+    simp [decodeOne, isSimple, isIf, isCp]
+
+theorem decodeOne_invokeinterface (pc a b c : Nat) (rest : Bytes) :
+    decodeOne pc (0xb9 :: a :: b :: c :: 0 :: rest) = some (.invokeinterface (a * 256 + b) c, 5) := by
+  simp [decodeOne, isSimple, isIf, isCp]
+
+theorem decodeOne_newarray (pc t : Nat) (rest : Bytes) :
+    decodeOne pc (0xbc :: t :: rest) = some (.newarray t, 2) := by
+  simp [decodeOne, isSimple, isIf, isCp]
+
+theorem decodeOne_multianewarray (pc a b d : Nat) (rest : Bytes) :
+    decodeOne pc (0xc5 :: a :: b :: d :: rest) = some (.multianewarray (a * 256 + b) d, 4) := by
+  simp [decodeOne, isSimple, isIf, isCp]
+
 end CodeDecode
